@@ -9,10 +9,11 @@ import GoDebian.Drv.Codec
 import GoDebian.Drv.Deb
 import GoDebian.Drv.Changelog
 import GoDebian.Drv.Hashio
+import GoDebian.Drv.BuildOrder
 
 open GoDebian GoDebian.Drv
 
-def handlers : List Handler := [versionHandler, dependencyHandler, deb822Handler, codecHandler, debHandler, changelogHandler, hashioHandler]
+def handlers : List Handler := [versionHandler, dependencyHandler, deb822Handler, codecHandler, debHandler, changelogHandler, hashioHandler, buildOrderHandler]
 
 def dispatch (line : String) : String :=
   match (line.splitOn " ").filter (· ≠ "") with
